@@ -534,7 +534,8 @@ where
         + VecZnxBigNormalize<BE>
         + VecZnxBigNormalizeTmpBytes,
 {
-    /// Returns the minimum scratch-space size in bytes required by [`cmux`][Self::cmux].
+    /// Returns the minimum scratch-space size in bytes required by [`cmux`][Self::cmux],
+    /// [`cmux_assign`][Self::cmux_assign] and [`cmux_assign_neg`][Self::cmux_assign_neg].
     fn cmux_tmp_bytes<R, A, B>(&self, res_infos: &R, a_infos: &A, selector_infos: &B) -> usize
     where
         R: GLWEInfos,
@@ -542,9 +543,18 @@ where
         B: GGSWInfos,
     {
         let res_dft: usize = self.bytes_of_vec_znx_dft((selector_infos.rank() + 1).into(), selector_infos.size());
-        res_dft
+        // The external product runs on the difference of the branches, which is laid out like `res`
+        // (cmux, cmux_assign) or like the wider of `res` and `a` (the temporary of cmux_assign_neg).
+        let tmp_infos: GLWELayout = GLWELayout {
+            n: selector_infos.n(),
+            base2k: res_infos.base2k(),
+            k: res_infos.max_k().max(a_infos.max_k()),
+            rank: res_infos.rank(),
+        };
+        let tmp: usize = GLWE::<Vec<u8>>::bytes_of_from_infos(&tmp_infos);
+        tmp + res_dft
             + self
-                .glwe_external_product_internal_tmp_bytes(res_infos, a_infos, selector_infos)
+                .glwe_external_product_internal_tmp_bytes(res_infos, &tmp_infos, selector_infos)
                 .max(self.vec_znx_big_normalize_tmp_bytes())
     }
 
